@@ -3,7 +3,7 @@
 //! (logs every write); compare the access trace with the model's and check it directly.
 use tevec::prelude::*;
 use vh::trace::*;
-use vh::{Cell, Emitter, Rng, NULL_PATTERNS, null_mask, guarded, coq_nat};
+use vh::{Cell, Emitter, Rng, NULL_PATTERNS, null_mask, guarded, coq_nat, coq_f64, coq_list, coq_opt, coq_bool};
 
 fn enc_acc(a: &Acc) -> Option<Cell> {
     Some(Cell::Int(match a {
@@ -67,6 +67,190 @@ macro_rules! to {
         }));
         assemble($len, $len2, r)
     }};
+}
+
+
+// ====================================================================================================
+// part=ktrace: the kernel traces, cell by cell (model side: Run/RunC10.v run_ksteps / run_ksteps2 /
+// run_vrank_segs over Model/KernelSteps.v).
+//
+// Layout (both sides):  len len2 SEP  step*  status
+//   step   = [number of driver reads] driver reads (in order)  callback reads (sorted multiset)  writes  [panic]  SEP
+//   status = panic | number of outputs [slot states 1/0 — implementation, caller-buffer path only]
+// A step is one callback invocation.  In the caller-buffer path (two-phase index body) the `uset` of the
+// slot ends the step and the first 1 (2 for two series) reads are the driver's own `uget(end)`; in the
+// returned path (iterator body) the driver reads through `titer`, and the output container below logs a
+// marker each time it has pulled one item out of the lazy iterator, which ends the step.
+// ====================================================================================================
+const ITEM_MARK: usize = 1 << 20;
+
+/// Output container of the returned path: `collect_from_iter` logs `Titer(ITEM_MARK + i)` after pulling item i.
+#[derive(Clone, Debug)]
+pub struct StepOut<T>(pub Vec<T>);
+pub struct StepUninit<T>(pub Vec<Option<T>>);
+impl<T> GetLen for StepOut<T> { fn len(&self) -> usize { self.0.len() } }
+impl<T> GetLen for StepUninit<T> { fn len(&self) -> usize { self.0.len() } }
+impl<T: Clone> TIter<T> for StepOut<T> {
+    fn titer(&self) -> impl TIterator<Item = T> + '_ { self.0.iter().cloned() }
+}
+impl<T: Clone> Vec1View<T> for StepOut<T> {
+    type SliceOutput<'a> = Vec<T> where Self: 'a;
+    fn get_backend_name(&self) -> &'static str { "stepout" }
+    unsafe fn uget(&self, index: usize) -> T { self.0[index].clone() }
+}
+impl<T: Clone> Vec1<T> for StepOut<T> {
+    type Uninit = StepUninit<T>;
+    type UninitRefMut<'a> = &'a mut StepUninit<T> where T: 'a;
+    fn collect_from_iter<I: Iterator<Item = T>>(iter: I) -> Self {
+        let mut v = Vec::new();
+        for (i, x) in iter.enumerate() {
+            log(Acc::Titer(ITEM_MARK + i));
+            v.push(x);
+        }
+        StepOut(v)
+    }
+    fn uninit(len: usize) -> Self::Uninit { StepUninit((0..len).map(|_| None).collect()) }
+    fn uninit_ref_mut(u: &mut Self::Uninit) -> Self::UninitRefMut<'_> { u }
+}
+impl<T: Clone> UninitVec<T> for StepUninit<T> {
+    type Vec = StepOut<T>;
+    unsafe fn assume_init(self) -> Self::Vec { StepOut(self.0.into_iter().map(|x| x.expect("StepOut: slot never written")).collect()) }
+    unsafe fn uset(&mut self, idx: usize, v: T) { log(Acc::Uset(idx)); if idx < self.0.len() { self.0[idx] = Some(v) } }
+}
+impl<T> UninitRefMut<T> for &mut StepUninit<T> {
+    unsafe fn uset(&mut self, idx: usize, v: T) { log(Acc::Uset(idx)); if idx < self.0.len() { self.0[idx] = Some(v) } }
+}
+
+fn num(a: &Acc) -> i128 {
+    match enc_acc(a) { Some(Cell::Int(v)) => v, _ => 0 }
+}
+
+/// cut the log of one kernel run into steps and render them; returns (cells, a rescan happened)
+/// `ndrv`: driver reads per step (caller-buffer path: 1 or 2; returned path: 0)
+fn step_cells(len: usize, len2: usize, ndrv: usize, res: Result<(usize, Option<Vec<bool>>), u8>) -> (Vec<Cell>, bool) {
+    let log = take_log();
+    let mut c = vec![Cell::Int(len as i128), Cell::Int(len2 as i128), Cell::Sep];
+    let mut rescan = false;
+    let mut cur: Vec<&Acc> = vec![];
+    let mut flush = |cur: &mut Vec<&Acc>, write: Option<usize>, panic: Option<u8>, c: &mut Vec<Cell>| {
+        let nd = ndrv.min(cur.len());
+        c.push(Cell::Int(nd as i128));
+        for a in cur[..nd].iter() { c.push(Cell::Int(num(a))) }
+        let mut cb: Vec<i128> = cur[nd..].iter().map(|a| num(a)).collect();
+        cb.sort();
+        // a rescan: the callback read at least two different indices (more than the element that leaves the window)
+        let mut d: Vec<i128> = cb.iter().map(|v| v % 1_000_000).collect(); d.sort(); d.dedup();
+        if d.len() > 1 { rescan = true }
+        for v in cb { c.push(Cell::Int(v)) }
+        if let Some(i) = write { c.push(Cell::Int(-(i as i128) - 1)) }
+        if let Some(k) = panic { c.push(Cell::Panic(k)) }
+        c.push(Cell::Sep);
+        cur.clear();
+    };
+    for a in log.iter() {
+        match a {
+            Acc::Uset(i) => flush(&mut cur, Some(*i), None, &mut c),
+            Acc::Titer(m) if *m >= ITEM_MARK => flush(&mut cur, None, None, &mut c),
+            Acc::Titer(_) => {}
+            _ => cur.push(a),
+        }
+    }
+    match res {
+        Err(k) => {
+            if !cur.is_empty() { flush(&mut cur, None, Some(k), &mut c) }
+            c.push(Cell::Panic(k));
+        }
+        Ok((nout, slots)) => {
+            if !cur.is_empty() { flush(&mut cur, None, None, &mut c) }
+            c.push(Cell::Int(nout as i128));
+            if let Some(sl) = slots { for b in sl { c.push(Cell::Int(if b { 1 } else { 0 })) } }
+        }
+    }
+    (c, rescan)
+}
+
+/// run a kernel into a caller buffer (two-phase index body): Ok((len, slot states))
+macro_rules! kto {
+    (|$b:ident| $e:expr, $len:expr) => {{
+        let _ = take_log();
+        guarded(std::panic::AssertUnwindSafe(|| -> (usize, Option<Vec<bool>>) {
+            let mut u = TraceOut::<f64>::uninit($len);
+            {
+                let $b = Some(TraceOut::<f64>::uninit_ref_mut(&mut u));
+                let _: Option<TraceOut<f64>> = $e;
+            }
+            (u.slots.len(), Some(u.slots.iter().map(|s| s.is_some()).collect()))
+        }))
+    }};
+}
+/// run a kernel that returns its output (iterator body, collected into StepOut)
+macro_rules! kret {
+    ($e:expr) => {{
+        let _ = take_log();
+        guarded(std::panic::AssertUnwindSafe(|| -> (usize, Option<Vec<bool>>) {
+            let o: StepOut<f64> = $e;
+            (o.0.len(), None)
+        }))
+    }};
+}
+
+fn same_class(a: f64, b: f64) -> bool { (a.is_nan() && b.is_nan()) || a == b }
+fn class_rep(xs: &[f64], i: usize) -> usize {
+    if i >= xs.len() { return i }
+    (0..i).find(|&j| same_class(xs[j], xs[i])).unwrap_or(i)
+}
+
+/// vrank: the log cut at its writes; reads as class representatives (sorted multiset), the write as
+/// (class representative, raw slot)
+fn vrank_cells(xs: &[f64], res: Result<Option<TraceOut<f64>>, u8>) -> Vec<Cell> {
+    let log = take_log();
+    let len = xs.len();
+    let mut c = vec![Cell::Int(len as i128), Cell::Int(len as i128), Cell::Sep];
+    let mut cur: Vec<i128> = vec![];
+    for a in log.iter() {
+        match a {
+            Acc::Uset(i) => {
+                cur.sort();
+                for v in cur.drain(..) { c.push(Cell::Int(v)) }
+                c.push(Cell::Int(-(class_rep(xs, *i) as i128) - 1));
+                c.push(Cell::Int(-(*i as i128) - 1));
+                c.push(Cell::Sep);
+            }
+            Acc::Uget(v, i) => cur.push(num(&Acc::Uget(*v, if *v == 0 { class_rep(xs, *i) } else { *i }))),
+            Acc::Titer(_) => {}
+            other => cur.push(num(other)),
+        }
+    }
+    if !cur.is_empty() {
+        cur.sort();
+        for v in cur.drain(..) { c.push(Cell::Int(v)) }
+        c.push(Cell::Sep);
+    }
+    match res {
+        Err(k) => c.push(Cell::Panic(k)),
+        Ok(o) => {
+            let o = o.unwrap();
+            c.push(Cell::Int(o.slots.len() as i128));
+            for s in o.slots.iter() { c.push(Cell::Int(if s.is_some() { 1 } else { 0 })) }
+        }
+    }
+    c
+}
+
+/// series for part=ktrace: extremes that expire, null newcomers, plateaus, all null
+fn kseries(rng: &mut Rng, kind: usize, len: usize) -> Vec<f64> {
+    let nan = |i: usize| vh::nan_at(i);
+    (0..len).map(|i| match kind {
+        0 => i as f64,                                        // increasing: the minimum expires at every step
+        1 => (len - i) as f64,                                // decreasing: the maximum expires at every step
+        2 => if i % 2 == 0 { (i / 2) as f64 } else { (len + 3 - i) as f64 }, // zigzag: both expire in turn
+        3 => 2.0,                                             // plateau: every comparison is a tie
+        4 => if i % 3 == 2 { nan(i) } else { (len - i) as f64 }, // null newcomers while the extreme expires
+        5 => if i == 0 { -5.0 } else if i == 1 { 9.0 } else if i % 2 == 0 { nan(i) } else { 1.0 }, // extremes first, then nulls
+        6 => nan(i),                                          // all null
+        7 => if i + 2 >= len { nan(i) } else { (i % 2) as f64 }, // trailing nulls
+        _ => if rng.chance(1, 4) { nan(i) } else { rng.range(-2, 2) as f64 },
+    }).collect()
 }
 
 fn main() {
@@ -228,6 +412,103 @@ fn main() {
                 || { let _ = take_log(); let r = guarded(std::panic::AssertUnwindSafe(|| -> Option<TraceOut<f64>> {
                         let v = TraceView::new(xs.clone(), 0, 0.0);
                         let _ = v.vquantile(q, QuantileMethod::Linear); let _ = v.vmedian(); None })); assemble::<f64>(len, len, r) });
+        }
+    }
+    // ---------------- part C: the kernel traces compared with the model's, cell by cell -------------
+    let klens: Vec<usize> = if em.thorough() { vec![0, 1, 2, 3, 5, 6, 8, 9] } else { vec![0, 1, 2, 4, 6] };
+    let nkind = 9usize;
+    for &len in klens.iter() {
+        for kind in 0..nkind {
+            if len <= 1 && kind > 0 && kind != 6 { continue; }
+            if len == 2 && !(kind == 0 || kind == 1 || kind == 4 || kind == 6 || kind == 8) { continue; }
+            let xs = kseries(&mut rng, kind, len);
+            let cxs = coq_list(&xs, |x| coq_f64(*x));
+            let mut ws: Vec<usize> = vec![0, 1, 2, len, len + 1];
+            if len > 3 { ws.push(3) }
+            if len > 5 { ws.push(len - 1) }
+            ws.sort(); ws.dedup();
+            for &w in ws.iter() {
+                let mut mps: Vec<Option<usize>> = vec![None, Some(1)];
+                if w >= 2 && (kind % 3 == 0 || em.thorough()) { mps.push(Some(w)) }
+                if kind == 8 { mps.push(Some(0)) }
+                for mp in mps {
+                    let wrel = if w == 0 { "zero" } else if w > len { "gt" } else if w == len { "eq" } else if w == 1 { "one" } else { "lt" };
+                    let cmp_ = coq_opt(&mp, |m| coq_nat(*m));
+                    // one emitter for every (fn, path): runs the implementation first (no unchecked memory access can
+                    // happen behind TraceView / TraceOut / StepOut), so that the tag can say whether a rescan happened
+                    macro_rules! kcase {
+                        ($name:expr, $fnc:expr, $pct:expr, $rev:expr, $body:expr, $run:expr) => {{
+                            let selected = em.args.only.map_or(true, |o| o == em.next_id) && em.next_id >= em.args.from;
+                            let (cells, rescan) = if selected { let r = $run; step_cells(len, len, if $body { 1 } else { 0 }, r) } else { (vec![], false) };
+                            em.case("custom:ksteps",
+                                &format!("part=ktrace fn={} path={} kind={} len={} wrel={} rescan={}{}", $name, if $body { "to" } else { "ret" }, kind, len, wrel,
+                                    if rescan { 1 } else { 0 }, if len == 0 { " nt=0" } else { "" }),
+                                &format!("ktrace fn={} path={} w={} mp={:?} pct={} rev={} xs={:?}", $name, if $body { "to" } else { "ret" }, w, mp, $pct, $rev, xs),
+                                || format!("(run_ksteps {} {} {} {} {} {} {})", $fnc, coq_bool($body), coq_nat(w), cmp_, coq_bool($pct), coq_bool($rev), cxs),
+                                || cells);
+                        }};
+                    }
+                    let tv = || TraceView::new(xs.clone(), 0, 0.0);
+                    kcase!("ts_vmin", 0, false, false, true, kto!(|b| tv().ts_vmin_to::<TraceOut<f64>, f64>(w, mp, b), len));
+                    kcase!("ts_vmin", 0, false, false, false, kret!(tv().ts_vmin::<StepOut<f64>, f64>(w, mp)));
+                    kcase!("ts_vmax", 1, false, false, true, kto!(|b| tv().ts_vmax_to::<TraceOut<f64>, f64>(w, mp, b), len));
+                    kcase!("ts_vmax", 1, false, false, false, kret!(tv().ts_vmax::<StepOut<f64>, f64>(w, mp)));
+                    kcase!("ts_vargmin", 2, false, false, true, kto!(|b| tv().ts_vargmin_to::<TraceOut<f64>, f64>(w, mp, b), len));
+                    kcase!("ts_vargmin", 2, false, false, false, kret!(tv().ts_vargmin::<StepOut<f64>, f64>(w, mp)));
+                    kcase!("ts_vargmax", 3, false, false, true, kto!(|b| tv().ts_vargmax_to::<TraceOut<f64>, f64>(w, mp, b), len));
+                    kcase!("ts_vargmax", 3, false, false, false, kret!(tv().ts_vargmax::<StepOut<f64>, f64>(w, mp)));
+                    kcase!("ts_vminmaxnorm", 5, false, false, true, kto!(|b| tv().ts_vminmaxnorm_to::<TraceOut<f64>, f64>(w, mp, b), len));
+                    kcase!("ts_vminmaxnorm", 5, false, false, false, kret!(tv().ts_vminmaxnorm::<StepOut<f64>, f64>(w, mp)));
+                    let (pct, rev) = if (w + kind) % 2 == 0 { (false, false) } else { (true, true) };
+                    kcase!("ts_vrank", 4, pct, rev, true, kto!(|b| tv().ts_vrank_to::<TraceOut<f64>, f64>(w, mp, pct, rev, b), len));
+                    kcase!("ts_vrank", 4, pct, rev, false, kret!(tv().ts_vrank::<StepOut<f64>, f64>(w, mp, pct, rev)));
+                    // residual statistics: second series equal / shorter / longer (index body: documented panic when shorter)
+                    let lens2: Vec<usize> = if len == 0 { vec![0, 1] } else { vec![len, len - 1, len + 1] };
+                    for (li, &l2) in lens2.iter().enumerate() {
+                        if li > 0 && !(mp == Some(1) || em.thorough()) { continue; }
+                        let ys = kseries(&mut rng, if kind == 6 { 8 } else { (kind + 1) % nkind }, l2);
+                        let cys = coq_list(&ys, |x| coq_f64(*x));
+                        let l2rel = if l2 == len { "eq" } else if l2 < len { "shorter" } else { "longer" };
+                        let tv2 = || TraceView::new(ys.clone(), 1, 0.0);
+                        macro_rules! kcase2 {
+                            ($name:expr, $fnc:expr, $body:expr, $run:expr) => {{
+                                let selected = em.args.only.map_or(true, |o| o == em.next_id) && em.next_id >= em.args.from;
+                                let (cells, rescan) = if selected { let r = $run; step_cells(len, l2, if $body { 2 } else { 0 }, r) } else { (vec![], false) };
+                                em.case("custom:ksteps",
+                                    &format!("part=ktrace fn={} path={} kind={} len={} wrel={} len2={} rescan={}{}", $name, if $body { "to" } else { "ret" }, kind, len, wrel, l2rel,
+                                        if rescan { 1 } else { 0 }, if len == 0 { " nt=0" } else { "" }),
+                                    &format!("ktrace fn={} path={} w={} mp={:?} xs={:?} ys={:?}", $name, if $body { "to" } else { "ret" }, w, mp, xs, ys),
+                                    || format!("(run_ksteps2 {} {} {} {} {} {})", $fnc, coq_bool($body), coq_nat(w), cmp_, cxs, cys),
+                                    || cells);
+                            }};
+                        }
+                        match (w + li + kind) % 3 {
+                            0 => {
+                                kcase2!("ts_vregx_resid_mean", 0, true, kto!(|b| tv().ts_vregx_resid_mean_to::<TraceOut<f64>, f64, _, _>(&tv2(), w, mp, b), len));
+                                kcase2!("ts_vregx_resid_mean", 0, false, kret!(tv().ts_vregx_resid_mean::<StepOut<f64>, f64, _, _>(&tv2(), w, mp)));
+                            }
+                            1 => {
+                                kcase2!("ts_vregx_resid_std", 1, true, kto!(|b| tv().ts_vregx_resid_std_to::<TraceOut<f64>, f64, _, _>(&tv2(), w, mp, b), len));
+                                kcase2!("ts_vregx_resid_std", 1, false, kret!(tv().ts_vregx_resid_std::<StepOut<f64>, f64, _, _>(&tv2(), w, mp)));
+                            }
+                            _ => {
+                                kcase2!("ts_vregx_resid_skew", 2, true, kto!(|b| tv().ts_vregx_resid_skew_to::<TraceOut<f64>, f64, _, _>(&tv2(), w, mp, b), len));
+                                kcase2!("ts_vregx_resid_skew", 2, false, kret!(tv().ts_vregx_resid_skew::<StepOut<f64>, f64, _, _>(&tv2(), w, mp)));
+                            }
+                        }
+                    }
+                }
+            }
+            // vrank on the same series: the trace cut at its writes, modulo ties
+            for (pct, rev) in [(false, false), (false, true), (true, false), (true, true)] {
+                em.case("custom:vsegs", &format!("part=ktrace fn=vrank kind={} len={}{}", kind, len, if len == 0 { " nt=0" } else { "" }),
+                    &format!("ktrace fn=vrank pct={} rev={} xs={:?}", pct, rev, xs),
+                    || format!("(run_vrank_segs {} {} {})", coq_bool(pct), coq_bool(rev), cxs),
+                    || { let _ = take_log();
+                         let r = guarded(std::panic::AssertUnwindSafe(|| -> Option<TraceOut<f64>> {
+                             Some(TraceView::new(xs.clone(), 0, 0.0).vrank::<TraceOut<f64>, f64>(pct, rev)) }));
+                         vrank_cells(&xs, r) });
+            }
         }
     }
     em.finish();
